@@ -32,6 +32,19 @@ DM_UNITS = [u.pc / u.cm ** 3, u.pc / u.m ** 3, u.kpc / u.cm ** 3, u.pc / u.mm **
 def make_dm(rng, value):
     unit = gen.pick(rng, DM_UNITS) if rng.random() < 0.4 else DM_UNITS[0]
     q = (value * u.pc / u.cm ** 3).to(unit)
+    if gen._side_rng(rng).random() < 0.25:
+        # the same DM reached by another history (a DM-trial loop): built with another value, used once with every public method,
+        # then changed in place to the wanted value (0 + q is exact)
+        with probes.quiet():
+            dm = pb.DispersionMeasure(q * 3 + 1.0 * unit)
+            f = np.array([300.0, 400.0]) * u.MHz
+            dm.time_delay(f, 350 * u.MHz)
+            dm.sample_delay(f, 350 * u.MHz, 1 * u.MHz)
+            dm.chirp_function(8, 1 * u.us, 350 * u.MHz, 351 * u.MHz)
+            repr(dm)
+            dm -= dm
+            dm += q
+        return dm
     return pb.DispersionMeasure(q)
 
 
